@@ -143,7 +143,7 @@ func (h *Handler) available(lease *Lease, ip netip.Addr) bool {
 		if v.State == StateAllocated && v.Addr.IP == ip {
 			return false
 		}
-		if v.State == StateDiscover && v.Addr.IP == ip && v.DHCPExpiry.After(time.Now()) { // negotiating again while the acknowledged address is still leased
+		if v.State == StateDiscover && v.Addr.IP == ip && !v.DHCPExpiry.Before(time.Now()) { // negotiating again while the acknowledged address is still leased
 			return false
 		}
 	}
